@@ -832,7 +832,32 @@ class TrackRunner:
             e.update({"a": a, "b": bid})
             ag = self.slots[a]
             before = self.snapshot_targets(ag)
+            # "the quantity minimised by a learn step is the loss": the step must be the one an exact copy of the learner with
+            # cleared gradient buffers takes on the same batch (nothing left over from earlier steps enters the update)
+            twin = None
+            try:
+                import copy as _copy
+                # (DQN / Rainbow keep their target as tensors tied to the module objects; a deep copy of those agents is not a
+                # working learner, their steps are compared with clones in C01 instead)
+                if not type(ag).__name__ in ("DDPG", "TD3", "MADDPG", "MATD3", "CQN"):
+                    raise TypeError("not judged")
+                twin = _copy.deepcopy(ag)
+                for nm, mods in _all_modules(twin):
+                    for m in mods:
+                        for p_ in m.parameters():
+                            p_.grad = None
+            except Exception:                                      # noqa: BLE001  (an agent that cannot be deep-copied: not judged)
+                twin = None
             self.learn(ag, bid)
+            if twin is not None:
+                self.learn(twin, bid)
+                from ..project import agent as proj
+                same = []
+                for (nm, mods), (_, tmods) in zip(_all_modules(ag), _all_modules(twin)):
+                    same.append(all(proj.w_hash(x) == proj.w_hash(y) for x, y in zip(mods, tmods)))
+                e["fresh_same"] = bool(all(same))
+            else:
+                e["fresh_same"] = True
             cl = self.classify(ag, before)
             e["cls"] = [c["cls"] for c in cl]
             e["detail"] = [c for c in cl if c["cls"] == "other"]
@@ -896,6 +921,17 @@ def run_track(variant: str, family: str, ops, *, pf: int = 1, tau: float = 0.5, 
         return r.run(ops)
     finally:
         r.close()
+
+
+def _all_modules(ag):
+    """(name, [modules]) of every evaluation / target network of the agent, in registry order"""
+    from ..project import agent as proj
+    evals, shared = proj.net_names(ag)
+    out = []
+    for e_ in evals:
+        for nm in [e_] + shared[e_]:
+            out.append((nm, proj._mods(ag, nm)))
+    return out
 
 
 def script(rng: random.Random, pf: int, length: int = 14) -> List[tuple]:
